@@ -227,6 +227,12 @@ func bigIntrinsics() map[string]intrinsic {
 			if room < 0 {
 				room = 0
 			}
+			// a count of 2^40 bits or more cannot be allocated: the real Lsh panics
+			huge := it.tt.Cmp(OUle, it.tt.BigConst(bigW, new(big.Int).Lsh(big.NewInt(1), 40)), cnt)
+			nonzero := it.tt.Not(it.tt.Eq(x, zeroBig(it)))
+			if it.truth(fromTerm(it.tt.And(huge, nonzero))) {
+				it.goPanicRuntime("makeslice: len out of range")
+			}
 			fits := it.tt.Cmp(OUle, cnt, it.tt.BigConst(bigW, big.NewInt(int64(room))))
 			if !it.truth(fromTerm(fits)) {
 				it.unsupported(fmt.Sprintf("math/big model: left shift of a %d-bit value by more than %d", xb, room))
